@@ -11,6 +11,9 @@ Part A  mixture graph (call forms).  A state is a mixture expression
         The live component objects are built once per shard and serve every call of the shard (the same
         object in many calls, and several times in one call); they are observed (str, atoms, hill, mass ...)
         before their first use, and must come back unaltered from every call.
+        Alphabet 'L' (same display string): materials that PRINT THE SAME but differ - several materials with
+        one name=, a name that equals the text of an unnamed component, a string argument next to Formula
+        objects - in every ordered tuple of 2 and 3 components, by weight and by volume, same oracle.
 Part C  reuse histories.  Two live objects go through every sequence (length <= 3 / 4) of judged calls,
         calls with keyword overrides, and in-place updates by the caller (density, natural_density, name,
         `a += b`); every judged call must match the reference for the CURRENT state of the objects.
@@ -35,7 +38,10 @@ META = dict(
           "different densities, or once with and once without a density (A: bases H2O@1 / H2O@0.92 and SiO2 / "
           "SiO2@2.2, a mixture and its copy with another density; C: object pairs of equal structure; B: block "
           "'repeats').  A failure that disappears when the later occurrence is replaced by the earlier object is "
-          "named ':same-compound-other-density'.  Percentages that add up to exactly 100 are judged: the remainder "
+          "named ':same-compound-other-density'.  Forced collision of the DISPLAY STRING (A, alphabet L): different "
+          "materials with equal str(f) in one call - NaCl / KBr / SiO2 (no density) / 3.2KBr all with name='salt', "
+          "an unnamed H2O@1 next to NaCl with name='H2O' and next to the string argument 'H2O@0.92'; a failure that "
+          "disappears when every part is an equal object with a name of its own is named ':same-display-string'.  Percentages that add up to exactly 100 are judged: the remainder "
           "is a zero quantity, the last part vanishes (cause ':percentages-sum-to-100').  "
           "A: zero quantities of components WITHOUT density are ordinary members (they vanish: no error by volume, "
           "and the density is judged from the remaining parts); the Formula objects passed in are shared by all events "
@@ -57,7 +63,9 @@ META = dict(
           "documented error case."),
     bound=dict(
         quick=("A: depth 1: k<=2 over 18 bases (9 compounds, each also with the formula unit x3.2), k=3 over 10; "
-               "depth 2: k<=2 over 18 bases + R1 (11), k=3 over 3 bases + 5 of R1; all 7 quantities; string arguments k<=2.  "
+               "depth 2: k<=2 over 18 bases + R1 (11), k=3 over 3 bases + 5 of R1; all 7 quantities; string arguments k<=2; "
+               "same display string: all ordered pairs (7 quantities) and triples (5 quantities) over the 7 components "
+               "of alphabet L, by weight and by volume, Formula objects (one string argument among them).  "
                "B repeats: 3 component triples (X@d1, Y, X@d2 / X without density) x 6 orders x (wt% / vol% with "
                "remainder and with sum 100, 13 unit pairs, across a repeated group, across a nested part, nested "
                "percentages) + the repeated compound alone: 552 derivations.  "
@@ -72,7 +80,8 @@ META = dict(
                "5 scaled parts in the same forms; zero amounts of the density-less part in every unit pair.  "
                "C: histories of length <= 3 over 7 object pairs (25 380 histories)"),
         thorough=("A: depth 1: k<=3 over all 18 bases; depth 2: k<=2 full, k=3 over all 29 components with 5 quantities "
-                  "and over the quick alphabet with 7; depth 3: k<=3 over 4 bases + 3 of R1 + R2; string arguments k<=2 full, k=3 over 8 bases with 5 quantities.  "
+                  "and over the quick alphabet with 7; depth 3: k<=3 over 4 bases + 3 of R1 + R2; string arguments k<=2 full, k=3 over 8 bases with 5 quantities; "
+                  "same display string: pairs and triples over alphabet L with all 7 quantities.  "
                   "B: as quick, plus: every later-part spelling independently; all 13^3 percentage tuples; all 48 "
                   "quantity pairs for every unit pair; 2 quantity triples per unit triple; nesting depth 3 (720 "
                   "derivations); group in group in group; collisions with every element of the table (131 parts).  "
@@ -106,6 +115,8 @@ META = dict(
         "whose float sum is exactly 100.0 are judged (all multiples of 0.5 here)",
         "formula(f, density=d) gives the same structure with another density (used to build the structure-equal "
         "mixture component; C12)",
+        "a name given with formula(text, name=...) changes what the material prints as and nothing else: the "
+        "reference of a named component is that of its text (the name of the RESULT is not judged)",
         "error cases accept any exception class",
         "string forms are compared with the calls they abbreviate, so they are explored only when part A is silent",
     ],
@@ -161,7 +172,23 @@ R2 = [
     ["x", SCALE, ["v", [[R1[0], 1], [R1[3], 2]]]],
     ["w", [[R1[6], 2], [R1[5], 0]]],
 ]
+# forced collisions of the DISPLAY STRING: components that print the same (str(f) is the name when there is one)
+# but are different materials.  ["n", name, base text] = formula(text, name=name); ["s", text] = the text itself
+# passed next to Formula objects (the constructors accept both; its display string is that of formula(text)).
+LOOK_TABLE = [
+    ("KBr@2.75", {"K": 1, "Br": 1}, ("i", 2.75)),
+]
+LOOK = [
+    ["n", "salt", "NaCl@2.16"],        # two materials carrying the same name ...
+    ["n", "salt", "KBr@2.75"],
+    ["n", "salt", "SiO2"],             # ... a third without density
+    ["n", "salt", "3.2KBr@2.75"],      # ... and one of them with another formula unit
+    "H2O@1",                           # unnamed: prints as 'H2O'
+    ["n", "H2O", "NaCl@2.16"],         # a name that equals the text of the unnamed one
+    ["s", "H2O@0.92"],                 # a string argument that prints as 'H2O' as well, another density
+]
 ALPHABETS = {
+    "L": (LOOK, []),
     "A1": (BASES, []),
     "A1q": (UNSCALED + ["3.2H2O@1"], []),
     "A2": (BASES, R1),
@@ -183,7 +210,7 @@ class Env(object):
                 self.amass[el.symbol] = el.mass
                 self.eldens[el.symbol] = el.density
         self.base_ref = {}
-        for text, atoms, dens in BASE_TABLE:
+        for text, atoms, dens in BASE_TABLE + LOOK_TABLE:
             a = dict((k, float(v)) for k, v in atoms.items())
             if dens is None:
                 rho = None
@@ -213,6 +240,8 @@ def cheap_state(f):
     """Everything a caller can have stored on a Formula: the structure (an immutable nested tuple, compared
     by identity), density, name and any other public instance attribute (total_mass, thickness ...).
     Private attributes (a leading underscore: possible caches) are not looked at."""
+    if isinstance(f, str):
+        return (f, None, None, ())
     try:
         extra = tuple(sorted((k, v) for k, v in vars(f).items()
                              if not k.startswith("_") and k not in ("structure", "density", "name")))
@@ -242,6 +271,8 @@ OBSERVED = ("str", "atoms", "hill", "mass", "molecular_mass", "mass_fraction", "
 def observe(f):
     """The values a caller can read from a Formula (and that an implementation could memoise on the object):
     read on every component BEFORE it is used as an operand, and compared afterwards."""
+    if isinstance(f, str):
+        return [f]
     out = []
     for what in OBSERVED:
         try:
@@ -274,6 +305,10 @@ def observe_diff(old, new):
 def expr_code(e):
     if isinstance(e, str):
         return "formula(%r)" % e
+    if e[0] == "n":
+        return "formula(%r, name=%r)" % (e[2], e[1])
+    if e[0] == "s":
+        return repr(e[1])
     if e[0] == "x":
         return "(%r*%s)" % (e[1], expr_code(e[2]))
     if e[0] == "d":
@@ -283,7 +318,7 @@ def expr_code(e):
 
 
 def expr_depth(e):
-    if isinstance(e, str):
+    if isinstance(e, str) or e[0] in ("n", "s"):
         return 0
     if e[0] in ("x", "d"):
         return expr_depth(e[2])
@@ -300,6 +335,10 @@ class Graph(object):
     def ref_of(self, e):
         if isinstance(e, str):
             return self.env.base_ref[e]
+        if e[0] == "n":
+            return self.env.base_ref[e[2]]
+        if e[0] == "s":
+            return self.env.base_ref[e[1]]
         if e[0] == "x":
             m = self.ref_of(e[2])
             return m.scaled(e[1]) if isinstance(m, R.Mat) else m
@@ -322,6 +361,12 @@ class Graph(object):
             f = env.formula(e)
             observe(f)
             return f
+        if e[0] == "n":       # a named material: str(f) is the name
+            f = env.formula(e[2], name=e[1])
+            observe(f)
+            return f
+        if e[0] == "s":       # the text itself is the argument
+            return e[1]
         if e[0] == "x":
             f = self.lib_of(e[2])
             g = e[1] * f
@@ -346,7 +391,7 @@ class Graph(object):
         k = jdump(e)
         if k not in self.lib:
             ok = True
-            if not isinstance(e, str):
+            if not isinstance(e, str) and e[0] not in ("n", "s"):
                 probe = Acc()
                 inner = e[2] if e[0] in ("x", "d") else e
                 comps = [self.component(c, acc) for c, q in inner[1]]
@@ -492,8 +537,42 @@ class Graph(object):
             return ""
         return ":same-compound-other-density"
 
+    def display_cause(self, kind, objs, refs, qs):
+        """':same-display-string' when two different parts with positive quantity print the same (str(f): the
+        name, or the text of an unnamed formula) and the call is right once every part is an equal object
+        with a name of its own, '' otherwise."""
+        shown = {}
+        for i in range(len(qs)):
+            if qs[i] > 0:
+                try:
+                    f = self.env.formula(objs[i]) if isinstance(objs[i], str) else objs[i]
+                    shown.setdefault(str(f), []).append(i)
+                except Exception:
+                    return ""
+        if not any(len(set(id(objs[i]) for i in ii)) > 1 for ii in shown.values()):
+            return ""
+        args = []
+        try:
+            for i in range(len(qs)):
+                f = self.env.formula(objs[i])          # an equal object (same structure and density)
+                f.name = "part %d" % i
+                args += [f, qs[i]]
+        except Exception:
+            return ""
+        got = exc = None
+        try:
+            got = (self.env.mixw if kind == "w" else self.env.mixv)(*args)
+        except Exception as e:
+            exc = e
+        if self.judge(kind, refs, qs, R.mix(kind, list(zip(refs, qs)), self.env.amass), got, exc)[0] != "ok":
+            return ""
+        return ":same-display-string"
+
     def input_class(self, kind, objs, refs, qs):
-        return self.zero_cause(kind, objs, refs, qs) + self.repeat_cause(kind, objs, refs, qs)
+        cause = self.zero_cause(kind, objs, refs, qs) + self.repeat_cause(kind, objs, refs, qs)
+        if ":" + R.REPEAT not in cause:
+            cause += self.display_cause(kind, objs, refs, qs)
+        return cause
 
     def deep_check(self, kind, comps, qtuples, acc):
         """After all quantity tuples of one component tuple: the observable values of the caller's objects
@@ -537,10 +616,12 @@ class Graph(object):
             prev = [j for j in range(i) if expr[1][j][0] == c]
             if prev:
                 names.append(names[prev[0]])           # the same object again
+            elif not isinstance(c, str) and c[0] == "s":
+                names.append(repr(c[1]))               # a string argument
             else:
                 names.append("c%d" % i)
                 lines.append("c%d = %s" % (i, expr_code(c)))
-        objs = ", ".join(sorted(set(names)))
+        objs = ", ".join(sorted(set(n for n in names if n.startswith("c"))))
         look = ("lambda: [(str(c), c.mass, sorted((k, v) for k, v in vars(c).items() "
                 "if not k.startswith('_'))) for c in (%s,)]" % objs)
         lines += ["look = " + look, "before = look()",
@@ -574,11 +655,13 @@ def graph_plans(quick):
     if quick:
         return [("A1", 1, QS, 1, False), ("A1", 2, QS, 1, False), ("A1q", 3, QS, 1, False),
                 ("A2", 1, QS, 2, False), ("A2", 2, QS, 2, False), ("A2q", 3, QS, 2, False),
-                ("A1", 1, QS, 1, True), ("A1", 2, QS, 1, True)]
+                ("A1", 1, QS, 1, True), ("A1", 2, QS, 1, True),
+                ("L", 2, QS, 1, False), ("L", 3, QS5, 1, False)]
     return [("A1", 1, QS, 1, False), ("A1", 2, QS, 1, False), ("A1", 3, QS, 1, False),
             ("A2", 1, QS, 2, False), ("A2", 2, QS, 2, False), ("A2", 3, QS5, 2, False), ("A2q", 3, QS, 2, False),
             ("A3", 1, QS, 3, False), ("A3", 2, QS, 3, False), ("A3", 3, QS, 3, False),
-            ("A1", 1, QS, 1, True), ("A1", 2, QS, 1, True), ("A1q", 3, QS5, 1, True)]
+            ("A1", 1, QS, 1, True), ("A1", 2, QS, 1, True), ("A1q", 3, QS5, 1, True),
+            ("L", 2, QS, 1, False), ("L", 3, QS, 1, False)]
 
 
 def graph_shards(quick, seed):
@@ -632,7 +715,8 @@ def _graph_shard(arg):
             if acc.states % 4001 < len(qtuples):
                 acc.sample(dict(mode="graph", expr=[kind, [[c[0], q] for c, q in zip(cs, qtuples[-2])]]))
     acc.info["max_depth_completed"] = level
-    acc.count("A_events_level_%d%s" % (level, "_string_args" if argstr else ""), acc.states)
+    acc.count("A_events_level_%d%s" % (level, "_same_display_string" if aid == "L" else "_string_args" if argstr else ""),
+              acc.states)
     return acc
 
 
